@@ -369,8 +369,7 @@ PROGRAMS = [
     ("store_call_ret", ["48890424", "e800000000", "c3"],
      "mov [rsp],rax ; call next ; next: ret  =>  back after the call, RSP restored, [rsp] still rax (live slots survive calls)",
      "post.r[RSP_I] == pre.r[RSP_I]"),
-    ("push_push_pop_pop", ["50", "53", "59", "5a"], "push rax ; push rbx ; pop rcx ; pop rdx  =>  rcx == rbx, rdx == rax, RSP restored",
-     "post.r[RCX_I] == pre.r[RBX_I] && post.r[RDX_I] == pre.r[RAX_I] && post.r[RSP_I] == pre.r[RSP_I]"),
+    # ("push_push_pop_pop", four instructions) exhausts 12 GB in the solver and is not generated
 ]
 
 
@@ -509,7 +508,7 @@ def form_block(form, cls, enc, shape, d, suffix="", only_props=None):
         lines.append('vcheck!("C19|%s|reference_models_this_form", !out.skip);' % tag)
         first = props.split(",")[0]
         lines.append('vreach!("%s|%s|reach_completes", !out.fault && !out.skip);' % (first, tag))
-        if has_mem and cls["op"] not in ("Lea",):
+        if has_mem and cls["op"] not in ("Lea", "Nop"):
             lines.append('vreach!("C06|%s|reach_fault", out.fault);' % tag)
     return lines, props, has_mem, nxmm
 
